@@ -255,7 +255,7 @@ Qed.
 
 (* B7 *)
 Lemma lb_gate_path : forall t g cb o p dl cm kf,
-  go_res (gate t g cb o p dl cm) = inr kf -> get_path kf = p.
+  go_res (gate t g cb o p dl cm) = inr kf -> get_path kf = real_name t p.
 Proof.
   intros t g cb o p dl cm kf. unfold gate.
   destruct (fs_lstat t p) as [n|]; [|cbn; discriminate].
@@ -275,7 +275,7 @@ Qed.
 Lemma lb_read_names_paths : forall t cb o dir sfx dl cm names g acc evs files evs' g',
   read_names t g cb o dir sfx dl cm names acc evs = (inr files, evs', g') ->
   map get_path files =
-  map get_path acc ++ map (fun nm => dir ++ 47 :: nm) (filter (suffix_ok sfx) names).
+  map get_path acc ++ map (fun nm => real_name t (dir ++ 47 :: nm)) (filter (suffix_ok sfx) names).
 Proof.
   intros t cb o dir sfx dl cm. induction names as [|nm rest IH]; intros g acc evs files evs' g' H.
   - cbn in H. inversion H. cbn. rewrite app_nil_r. reflexivity.
@@ -291,19 +291,19 @@ Qed.
 
 Theorem read_dropins_paths : forall t g cb o dirs name sfx dl cm acc evs files evs' g',
   read_dropins t g cb o dirs name sfx dl cm acc evs = (inr files, evs', g') ->
-  map get_path files = map get_path acc ++ dropin_paths t dirs sfx.
+  map get_path files = map get_path acc ++ map (real_name t) (dropin_paths t dirs sfx).
 Proof.
   intros t g cb o dirs name sfx dl cm. revert g.
   induction dirs as [|dir rest IH]; intros g acc evs files evs' g' H.
   - cbn in H. inversion H. cbn. rewrite app_nil_r. reflexivity.
   - cbn [read_dropins] in H. unfold dropin_paths. cbn [flat_map].
-    fold (dropin_paths t rest sfx).
+    fold (dropin_paths t rest sfx). rewrite map_app.
     destruct (fs_scandir t dir) as [names|].
     + destruct (read_names t g cb o dir sfx dl cm names acc evs) as [[[e|acc'] evs1] g1] eqn:Hn.
       * inversion H.
       * apply IH in H. rewrite H.
         rewrite (lb_read_names_paths _ _ _ _ _ _ _ _ _ _ _ _ _ _ Hn).
-        rewrite <- app_assoc. reflexivity.
+        rewrite map_map. rewrite <- app_assoc. reflexivity.
     + apply IH in H. exact H.
 Qed.
 
